@@ -60,6 +60,30 @@ NOTES = {  # what a seed taught (checks strengthened because it was first missed
     "C12-8": "first only a broken tie: new roots carrying their own root-level comments/PIs",
     "C16-7": "first only a broken tie: parsing under a lowered interpreter int-digit limit",
     "C16-9": "first only a broken tie: literal-on-the-left expressions through fetch_or_create, cached vs fresh",
+    "C11-9": "first missed: pairs of nodes reached by different routes (parsed / created / moved in) compared ten ways; store spellings k vs {d}k",
+    "C06-7": "first only a broken tie: the same expression string evaluated repeatedly under different prefix mappings (state_search)",
+    "C19-7": "first missed: whole output tied byte for byte to Ws/Wrap.v, one-line form checked against the width, near-fit generator with escaped characters; found the open finding C19-oneline-boundary-whitespace",
+    "C01-11": "a GC-callback change: C04's subject (caught there); C01 now has a targeted scenario editing through a held chain member after a collection",
+    "C05-10": "a GC-callback change: C04's subject (caught there); C05 now holds a later member of a tail chain across a collection",
+    "C05-11": "first missed: histories - every relation queried on held objects, tree edited (move/detach/re-attach at another level), queried again on the same objects",
+    "C05-12": "filters held across a yield: C08's subject (caught there); C05 now re-queries len/index/first_child in the body of loops over nine generators",
+    "C02-12": "a refused assignment that leaves its value behind: C09's subject (caught there with failing inputs)",
+    "C03-11": "first missed: siblings with identical content (twins) next to an element, fixed cases and generator",
+    "C06-10": "first missed: and/or/comparisons mixed at one level without parentheses; found the open finding C06-q (chained comparisons associate to the right)",
+    "C06-11": "first only a broken tie: prefixed attributes in predicates under a sequence of mappings",
+    "C14-11": "first missed: history_search - paths read and evaluated from the same node objects before and after ancestors are detached / attached elsewhere, both orders",
+    "C17-11": "first missed: histories - compare, edit through every API route on objects taken before, compare again, both argument orders",
+    "C18-10": "first only a broken tie: white space outside ASCII in and around texts; a parsed-with-reduction root must be in normal form",
+    "C18-12": "order of xmlns:* declarations on the start tag: stated by neither C18 nor C13; reported as a broken tie (declared_attributes) by ./check C13",
+    "C04-11": "first only a broken tie: release clause on a multi-tree reference graph (held chained text node of an earlier tree, 3 / 25 dropped documents)",
+    "C08-11": "first only a broken tie: iterators started under one ambient setting and resumed under another",
+    "C09-10": "first only a broken tie: the stated rule for comment content kept as an independent spec (Conc/SetterSpec.v), multi-line contents",
+    "C11-10": "first only a broken tie: '{}name' accessors on nodes with a non-empty own namespace",
+    "C12-10": "first only a broken tie: texts containing ']]>' (also split over adjacent text nodes)",
+    "C16-10": "first only a broken tie: axis names that coincide with attributes of Axis objects, underscore spellings; parse() and xpath() must both reject",
+    "C16-11": "first only a broken tie: history independence - every string parsed four times in two fresh interpreters in opposite orders",
+    "C19-10": "first only a broken tie: white space outside ASCII between words",
+    "C19-11": "first only a broken tie: xml:space set during a first serialization and removed before the second, same node",
     "C03-1": "caught as a broken tie; generator bias for preserved nested children that fit the line requested",
 }
 rows = []
